@@ -61,6 +61,12 @@ fn ilv_programs() -> Vec<Program> {
         p
     };
     v.push(mk("get(a);get(c) || get(a);get(b)", 100, vec![put(1, 2), put(2, 2)], vec![vec![get(1), get(3)], vec![get(1), get(2)]]));
+    {
+        // lookups of a key whose delete is in flight (soft-deleted, command not yet executed) are lookups too
+        let mut p = mk("delete(a);get(a);get_ref(a) || get(a) [worker stopped]", 100, vec![put(1, 2)], vec![vec![del(1), get(1), Op::Read { k: 1, variant: ReadVariant::GetRef }], vec![get(1)]]);
+        p.frozen = vec![crate::harness::ilv::Role::Worker];
+        v.push(p);
+    }
     v.push(mk("put(c) || put(d) || get(a)", 100, vec![put(1, 2)], vec![vec![put(3, 2)], vec![put(4, 3)], vec![get(1)]]));
     v.push(mk("evicting-put(c) || delete(b);get(a)", 4, vec![put(1, 2), put(2, 1)], vec![vec![put(3, 3)], vec![del(2), get(1)]]));
     v.push(mk("upsert(a,w=1) || upsert(b,w=3) || multi_get([a,b])", 100, vec![put(1, 2), put(2, 2)], vec![
